@@ -1,28 +1,33 @@
 PROP = dict(
     lean_modules=["DefraModel.Props.C07"],
     props_modules=["DefraModel.Props.C07"],
-    engines=[dict(name="query", drv="query", args=["twin"], timeout=3600), dict(name="crdt", drv="crdt")],
-    oracle_tags=["index-changes-result", "index-changes-order", "index-changes-aggregate", "index-panic-or-hang", "panic", "multi-key-order", "index-after-merge"],
+    engines=[dict(name="query", drv="query", args=["twin"], timeout=3600), dict(name="crdt", drv="crdt"), dict(name="idxm", drv="idxm", timeout=3600)],
+    oracle_tags=["index-changes-result", "index-changes-order", "index-changes-aggregate", "index-panic-or-hang", "panic", "multi-key-order", "index-after-merge",
+                 "all-on-empty-array", "json-ne-on-missing-path", "json-path-on-non-object"],
     rule=("twin databases with identical documents, one of them with 1-3 generated secondary indexes (single-field and composite, ascending/descending, on String/Int/Float/Boolean columns, created before or "
           "after the data), a generated history of updates and deletes applied to both; then (a) the raw index entries of the real store are compared byte for byte with the entries the model derives from the live "
           "documents through the C17 key encoders, (b) generated queries (filters incl. _in/_nin/_or/_not and null operands, 1-3 ordering keys, limit/offset, aggregates) are run on both twins: same multiset of documents, "
           "same sequence of first sort keys, same aggregates; a case is one (collection, index set, query); distinct = distinct query lines per collection; "
+          "(d) the idxm engine: two collections of one node with array ([Int!], [String!]) and JSON fields that differ only in 1-3 generated indexes (single-field, composite with the array / JSON field leading, in the middle or trailing, "
+          "descending components, unique indexes on scalars, arrays and composites, created before or after the data); creates, updates and deletes go to both unless the unique index rejects them; generated filters (scalar comparisons, _in/_nin, "
+          "_any/_all/_none on the arrays, _or, paths into the JSON field) and _count run on both and must agree; every accepted / rejected write and every array-filter answer is compared with the model of Index/Multi.lean; "
           "(c) the crdt engine's replicas carry indexes on name and age: at every quiescent point of its generated multi-replica histories (remote merges, concurrent writes, deletes) every index-backed equality lookup "
           "(every value present, and null) is compared with the documents holding that value"),
     assumptions=[
         "limit/offset without an ordering that makes the sequence unique select an implementation-defined slice: such queries are compared through the ordered-sequence oracle only",
-        "unique indexes, array and JSON fields and relations are not generated yet; merged remote commits are covered by the crdt engine's lookups only (unique-index rejection is exercised by the C05 fault engine's priors only)",
+        "relations under indexes are covered by C09's engine; JSON filters are compared between the twin collections only (the model evaluates scalar and array conditions); merged remote commits are covered by the crdt engine's lookups only",
         "the theorems cover the candidate interval of a condition on the first indexed field of non-JSON kinds; value matchers on further composite fields only remove candidates, the complete filter is re-applied in any case",
     ],
-    trusted_base=["harness/query (twin mode), Driver/Query.lean"],
+    trusted_base=["harness/query (twin mode), Driver/Query.lean", "harness/idxm, Driver/Idxm.lean"],
 )
 META = dict(
     text=("Lean theorems: for all eight comparison-operator x direction cases, every condition value and every stored value satisfying the condition, the index entry lies inside the interval createRangeBoundaries scans "
-          "(from C17's order embedding and a proved characterisation of bytesPrefixEnd as least upper bound of a prefix); equality lookups cover their prefix; re-filtering a duplicate-free complete candidate set is exact; the index-maintenance model (build on a populated collection, then any create/update/delete history) holds exactly one entry per live document with its current values. "
+          "(from C17's order embedding and a proved characterisation of bytesPrefixEnd as least upper bound of a prefix); equality lookups cover their prefix; re-filtering a duplicate-free complete candidate set is exact; the index-maintenance model (build on a populated collection, then any create/update/delete history) holds exactly one entry per live document with its current values; a multi-entry (array) index scan, de-duplicated and re-filtered, is exact; "
+          "under the unique-index rule no two live documents share a key without nil component after any history, and a write is rejected exactly when it would make two share one. "
           "Tied to /repo by byte-comparison of raw index entries after generated mutation histories and by twin-database query comparison."),
     design_ref="DESIGN.md section 8, C07",
-    note=("Trusted: Lean kernel; harness/query twin mode. PARTIAL: index maintenance is proved for the model and tied by byte-equal entries; the planner's choice of index conditions is tied by correspondence (twin queries), not proved; unique indexes, arrays/JSON, relations not yet generated. "
+    note=("Trusted: Lean kernel; harness/query twin mode. PARTIAL: index maintenance is proved for the model and tied by byte-equal entries; the planner's choice of index conditions is tied by correspondence (twin queries), not proved; JSON filter semantics are not modelled (twin comparison only). "
           "Differences only in the order of documents that tie on the first sort key are the known finding multi-key-order (C08)."),
     technique="Lean 4 proof (range completeness from the C17 order embedding; index-maintenance invariant by induction over histories) + byte-level and twin-database correspondence",
 )
-ENGINES = []
+ENGINES = [{"name": "idxm", "path": "harness/idxm", "serves_properties": ["C07"], "kind_free_text": "two collections of one node with array and JSON fields, one with generated single / composite / unique indexes; generated writes and filters on both; unique-index verdicts and array-filter answers vs drv idxm"}]
